@@ -226,8 +226,10 @@ def run(ctx):
                 "(non-trivial = any event, plan or second run)")
     corp = [d["input"] for d in appcheck.corpus("C14")]
     if corp:
-        appcheck.evaluate(ctx, "C14", corp, cls_of=lambda sc: "corpus", extra_check=extra,
-                          model=False)
+        second = [sc for sc in corp if sc.get("closer") or sc.get("closer_line") is not None]
+        first = [sc for sc in corp if sc not in second]
+        appcheck.evaluate(ctx, "C14", first, cls_of=lambda sc: "corpus", extra_check=extra)
+        appcheck.evaluate(ctx, "C14", second, cls_of=lambda sc: "corpus", extra_check=closer_extra, model=False)
     appcheck.evaluate(ctx, "C14", scenarios(ctx), cls_of=cls_of, extra_check=extra)
     appcheck.evaluate(ctx, "C14", closer_scenarios(ctx), cls_of=cls_of, extra_check=closer_extra, model=False)
 
